@@ -99,6 +99,14 @@ class AsmPasses:
             fill = [" RMB %d\n" % nfill] if h.get("probe_fill", "rmb") == "rmb" else [" STA 20,X\n"] * nfill
             lines = ([src] + fill + ["T NOP\n"]) if direction == "fwd" else (["T NOP\n"] + fill + [src])
             si, ti = (0, len(lines) - 1) if direction == "fwd" else (len(lines) - 1, 0)
+            if h.get("probe_fill") == "org-after":
+                fill = [" RMB %d\n" % nfill]
+                if direction == "fwd":
+                    lines = [" ORG $1000\n", src, " ORG $1400\n"] + fill + ["T NOP\n"]
+                    si, ti = 1, 4
+                else:
+                    lines = [" ORG $1000\n", "T NOP\n"] + fill + [src, " ORG $4000\n", " NOP\n"]
+                    si, ti = 3, 1
             if h.get("probe_fill") == "pcrfar":
                 kk = h.get("probe_k", 3)
                 lines = [src] + [" LEAY FAR,PCR\n"] * kk + [" RMB %d\n" % nfill, "T NOP\n", " RMB 200\n", "FAR NOP\n"]
@@ -127,6 +135,10 @@ class AsmPasses:
                     if cell["k"] == "pcr" and direction == "bwd" and 120 <= nfill <= 127:
                         continue      # the known backward boundary finding is the sizes/bwd cell's
                     yield {"probe_n": nfill, "probe_dir": direction, "probe_fill": "rmb"}
+                if cell["k"] == "pcr":
+                    # the statement that follows is an ORG (the one statement whose address does not run on from this one)
+                    for nfill in (0, 5, 100, 126, 300):
+                        yield {"probe_n": nfill, "probe_dir": direction, "probe_fill": "org-after"}
                 if cell["k"] == "sizes" and direction == "fwd":
                     # other forward PCR references inside the span, still unsized when this one is sized and 16-bit in the end:
                     # the optimistic and the pessimistic size estimate of the span differ by one byte per reference
